@@ -30,7 +30,27 @@ RANK = {"C": 0, "O": 1, "G": 2, "X": 3}
 WIRE_LEGAL = set([1000, 1001, 1002, 1003, 1007, 1008, 1009, 1010, 1011, 1012, 1013]) | set(range(3000, 5000))
 
 
+def gen_pending_connect(rng):
+    """server whose onConnect() returns a pending Deferred/Future: the connection is lost, or the opening-handshake timer
+    fires, or both, or neither, before the result arrives (`res`); then ordinary traffic / API calls"""
+    T = rng.choice([SEC, 2 * SEC])
+    srv = int(rng.random() < 0.6)
+    cfg = {"srv": srv, "oht": T, "fbd": rng.randrange(2), "cht": rng.choice([0, SEC]), "sdt": SEC}
+    ops = ["hsd" if srv else "hsdc"]
+    for _ in range(rng.randrange(0, 3)):
+        ops.append(rng.choice(["lost", f"adv,{T + 8}", f"adv,{SEC // 2}", f"adv,{T - 8}"]))
+    ops.append("res")
+    mk = lambda: rng.randbytes(4) if srv else None
+    for _ in range(rng.randrange(0, 4)):
+        ops.append(rng.choice(["msg,6162,1,n,0", "ping,-", "close,1000,n", "lost", f"adv,{SEC}",
+                               "feed," + wsgen.hx(wsgen.frame(1, b"hi", mask=mk())),
+                               "feed," + wsgen.hx(wsgen.frame(8, struct.pack("!H", 1000), mask=mk()))]))
+    return {"cfg": cfg, "start": "connecting", "ops": ops}
+
+
 def gen_history(rng, tier):
+    if rng.random() < 0.06:
+        return gen_pending_connect(rng)
     cfg = wsgen.rand_cfg(rng, timers=True)
     if rng.random() < 0.65:
         cfg.pop("pi", None), cfg.pop("pt", None)   # auto-ping timers are C17's subject; a third of the histories keep
@@ -97,7 +117,7 @@ def close_spec(sc, nbody, line, judge_ans):
     per = wsrun.parse_line(line)
     ops = sc["ops"]
     # 1. forward-only state
-    prev = 1
+    prev = 0 if sc.get("start") == "connecting" else 1
     for (items, st), op in zip(per, ops):
         if RANK.get(st, -1) < prev:
             bad.append(("state-moved-backwards", f"state {st} after {op[:30]}"))
